@@ -118,7 +118,11 @@ def main():
   kinds = ["FC", "EW2", "FIXT", "SAMEIN0", "CONCAT"]
   mw = [configs.NOQ, M("SRQ", "a8a", "w8c"), M("WO", "-", "w8c"), M("DRQ", "-", "w8c")]
   ma = [configs.NOQ, M("SRQ", "a8a", "w8c"), M("SRQ", "a16", "w8c")]
-  c = configs.cfg(2 if args.tier == "quick" else 3, kinds, mw, ma, configs.IO_2, share="none", max_sub=2)
+  # (three operators over two subgraphs do not finish within hours; the thorough tier widens the operator kinds instead and
+  # relies on the random pairs for larger subgraphs)
+  if args.tier == "thorough":
+    kinds = kinds + ["EW1", "SAMEIN1", "SPLIT", "UNSUP"]
+  c = configs.cfg(2, kinds, mw, ma, configs.IO_2, share="none", max_sub=2)
   r, dumps = pipecheck.design_run("C19_pairs", c, ["InvTopo", "InvWellFormed"], timeout=7200)
   if r.error or r.rc not in (0, 12):
     chk.machinery("TLC failed: %s" % r.out[-600:])
